@@ -7,7 +7,9 @@ An operator table declares binary operators (level, left/right associativity) an
 checks that the grammar.json it was handed *is* this grammar); `pratt` is the reference parser.
 Decision rule (the one tree-sitter documents for `prec` / `prec.left/right`): with a pending operator of
 level `lv` to the left and an incoming binary or postfix operator of level `p`, continue to the
-right (shift) iff `p > lv`, or `p = lv` and the pending operator is right-associative.  A rule
+right (shift) iff `p > lv`, or `p = lv` and the pending operator is right-associative; when several
+rules share the incoming operator's text, every such rule's level is a reading of the token
+(`shouldShift` on the list of levels, as `handle_conflict` compares every shift item).  A rule
 without any PREC wrapper has the default precedence, which compares like the integer 0 against
 integer precedences (negative levels bind weaker than an un-annotated rule, positive ones tighter).
 -/
@@ -55,15 +57,42 @@ def binLevel (t : OpTable) (k : Nat) : Int := (t.bin.getD k default).level
 def binRight (t : OpTable) (k : Nat) : Bool := (t.bin.getD k default).right
 def unLevel (t : OpTable) (k : Nat) : Int := (t.un.getD k default).level
 def postLevel (t : OpTable) (k : Nat) : Int := (t.post.getD k default).level
+/-- the levels an incoming binary operator token can be shifted with: one per rule that uses the
+token's text (usually one; several when rules share an operator, e.g. `sub = prec.left(1, e - e)` and
+`range = prec.right(2, e - e)`) -/
+def binIn (t : OpTable) (k : Nat) : List Int :=
+  (t.bin.filter fun b => b.text == (t.bin.getD k default).text).map (·.level)
+def postIn (t : OpTable) (k : Nat) : List Int := [t.postLevel k]
+/-- the rule a completed `e text e` is reduced with when several rules share the text: the one of
+the greatest level (`none` on a tie: an unresolved reduce/reduce conflict) -/
+def binWinner (t : OpTable) (text : String) : Option Nat :=
+  let cands := (List.range t.bin.length).filter fun i => (t.bin.getD i default).text == text
+  match cands.foldl (fun (best : Option Nat) i => match best with
+      | none => some i
+      | some j => if t.binLevel i > t.binLevel j then some i else some j) none with
+  | some j => if (cands.filter fun i => t.binLevel i == t.binLevel j).length == 1 then some j else none
+  | none => none
 end OpTable
 
 /-- The pending operator to the left: its level and whether an equal level continues to the right. -/
 abbrev PCtx := Option (Int × Bool)
 
-def shouldShift (ctx : PCtx) (p : Int) : Bool :=
+/-- `ps`: the levels the incoming operator can be shifted with.  All of them above the pending level:
+continue; all of them equal: the pending operator's associativity decides; none above and one
+below: complete the pending operator — except that a tie together with a lower reading continues
+when the pending operator is right-associative (the lower reading alone must not flip the tie);
+readings both above and below are an unresolved conflict (the generator rejects the grammar). -/
+def shouldShift (ctx : PCtx) (ps : List Int) : Bool :=
   match ctx with
   | none => true
-  | some (lv, onEq) => decide (p > lv) || (decide (p = lv) && onEq)
+  | some (lv, onEq) =>
+    let more := ps.any fun p => decide (p > lv)
+    let less := ps.any fun p => decide (p < lv)
+    let eq := ps.any fun p => decide (p = lv)
+    if more && !less then true
+    else if less && !more then eq && onEq
+    else if !less && !more then onEq
+    else false
 
 mutual
   def parseExpr (t : OpTable) : Nat → PCtx → List OpTok → Option (ETree × List OpTok)
@@ -91,14 +120,14 @@ mutual
     | f + 1, ctx, lhs, toks =>
       match toks with
       | .bin k :: r =>
-        if shouldShift ctx (t.binLevel k) then
+        if shouldShift ctx (t.binIn k) then
           match parseExpr t f (some (t.binLevel k, t.binRight k)) r with
           | some (rhs, r') => parseLoop t f ctx (.bin k lhs rhs) r'
           | none => none
         else some (lhs, toks)
       | .post k :: r =>
         -- a postfix operator completes at once: no operand to its right, nothing stays pending
-        if shouldShift ctx (t.postLevel k) then parseLoop t f ctx (.post k lhs) r
+        if shouldShift ctx (t.postIn k) then parseLoop t f ctx (.post k lhs) r
         else some (lhs, toks)
       | _ => some (lhs, toks)
 end
